@@ -92,7 +92,7 @@ fn weights_for(focus: &str) -> [u32; OP_KINDS] {
     //            Play PlUci Probe ProbQ Take Find MkUci U2P MkAll SanAll SanBad Perft Chkp Corr Jump Trans Var Replay Eval
     match focus {
         "C01" => [40, 5, 20, 15, 8, 0, 0, 0, 0, 0, 0, 8, 2, 0, 4, 0, 0, 0, 0, 6],
-        "C02" => [60, 15, 2, 0, 6, 0, 2, 0, 6, 0, 0, 0, 3, 0, 5, 0, 0, 0, 0, 0],
+        "C02" => [60, 15, 2, 6, 6, 0, 2, 0, 6, 0, 0, 0, 3, 0, 5, 0, 0, 0, 0, 0],
         "C03" => [35, 5, 30, 5, 20, 0, 0, 0, 0, 0, 0, 3, 2, 0, 5, 0, 0, 0, 0, 0],
         "C05" => [45, 5, 30, 5, 6, 0, 0, 0, 0, 0, 0, 0, 2, 0, 6, 0, 0, 0, 0, 25],
         "C06" => [45, 5, 12, 0, 12, 0, 0, 0, 0, 0, 0, 0, 4, 0, 4, 10, 8, 0, 0, 0],
@@ -470,6 +470,9 @@ pub struct BoardSim<'a> {
     shape: Fnv,
     key_to_hash: HashMap<String, u64>,
     hash_to_key: HashMap<u64, String>,
+    /// C01 focus only: the board's castling/e.p./clock state has parted from the rules (a C02 matter);
+    /// move-set comparison goes on against the rules so that a phantom right shows up as an extra move
+    diverged: bool,
 }
 
 type V = Violation;
@@ -500,6 +503,7 @@ impl<'a> BoardSim<'a> {
             shape: Fnv::default(),
             key_to_hash: HashMap::new(),
             hash_to_key: HashMap::new(),
+            diverged: false,
         })
     }
 
@@ -511,6 +515,15 @@ impl<'a> BoardSim<'a> {
     /// operation just executed is about (who gets the violation if state diverged).
     fn cross_check(&mut self, blame: &str, ctx: &str) -> Result<(), V> {
         let rendered = render(&self.bb).map_err(|e| viol(blame, "board_inconsistent", format!("{} after {}", e, ctx)))?;
+        if self.focus == "C01" && rendered != self.rf && rendered.board == self.rf.board && rendered.white_to_move == self.rf.white_to_move {
+            if !self.diverged {
+                self.res.bump("probe.meta_state_divergence_tolerated_in_C01");
+            }
+            self.diverged = true;
+        }
+        if self.diverged {
+            return self.cross_check_moves_only();
+        }
         if rendered != self.rf {
             let f = diff_fields(&rendered, &self.rf);
             return Err(viol(blame, "state_mismatch", format!("after {}: board has {} expected {} (fields: {})", ctx, rendered.to_fen(), self.rf.to_fen(), f)).with("fields", json!(f)));
@@ -545,6 +558,11 @@ impl<'a> BoardSim<'a> {
         let legal = self.bb.generate_legal_moves();
         let got = uci_sorted(&legal);
         let want = self.rf.legal_uci();
+        let pseudo = self.bb.generate_pseudo_legal_moves();
+        let any = self.bb.is_any_move_legal(&pseudo);
+        if any == want.is_empty() || (got.is_empty() != want.is_empty()) {
+            return Err(viol("C05", "no_legal_moves_mismatch", format!("at {}: the rules give {} legal moves, generate_legal_moves gives {}, is_any_move_legal says {} (mate/stalemate decision)", self.rf.to_fen(), want.len(), got.len(), any)));
+        }
         if got != want {
             let missing: Vec<&String> = want.iter().filter(|m| !got.contains(m)).collect();
             let extra: Vec<&String> = got.iter().filter(|m| !want.contains(m)).collect();
@@ -583,6 +601,22 @@ impl<'a> BoardSim<'a> {
         if self.rf.half >= 1000 {
             self.res.bump("probe.half_ge_1000");
         }
+        Ok(())
+    }
+
+    /// Reduced cross-check used once the board's meta state has parted from the rules (C01 focus).
+    fn cross_check_moves_only(&mut self) -> Result<(), V> {
+        let legal = self.bb.generate_legal_moves();
+        let got = uci_sorted(&legal);
+        let want = self.rf.legal_uci();
+        if got != want {
+            let missing: Vec<&String> = want.iter().filter(|m| !got.contains(m)).collect();
+            let extra: Vec<&String> = got.iter().filter(|m| !want.contains(m)).collect();
+            return Err(viol("C01", "legal_move_set_mismatch", format!("at {} (board state already differs from the rules in castling/e.p./clocks): missing {:?} extra {:?}", self.rf.to_fen(), missing, extra)).with("after_meta_divergence", json!(true)));
+        }
+        // keep the threaded hashes in step with the board so that later checks stay meaningful
+        self.hash = self.bb.calculate_zobrist_hash();
+        self.pawn_hash = self.bb.calculate_zobrist_pawn_hash();
         Ok(())
     }
 
@@ -716,6 +750,14 @@ impl<'a> BoardSim<'a> {
         if self.rf.half == 4095 {
             self.res.bump("probe.half_eq_4095");
         }
+        if self.diverged && !matches!(op, Op::Play(_) | Op::JumpTo(_)) {
+            return Ok(());
+        }
+        if self.diverged {
+            if let Op::JumpTo(_) = op {
+                self.diverged = false;
+            }
+        }
         match op {
             Op::Play(i) => {
                 let m = match self.legal_pick(*i) {
@@ -823,12 +865,26 @@ impl<'a> BoardSim<'a> {
             Op::ProbeQuiescent => {
                 let w = self.rf.white_to_move;
                 let nq = self.bb.generate_pseudo_legal_non_quiescent_moves();
+                let before = snap(&self.bb);
                 let mut got = Vec::new();
                 for mv in nq {
                     let uci = mv.to_uci_string();
                     let m = Mv::parse(&uci).ok_or_else(|| viol("C01", "malformed_move", format!("{:?}", uci)))?;
-                    if !self.rf.apply(&m).in_check(w) {
-                        got.push(uci);
+                    let after = self.rf.apply(&m);
+                    // the Move values of THIS generator must carry complete make/unmake information too
+                    self.bb.make(mv);
+                    let r = render(&self.bb);
+                    self.bb.unmake(mv);
+                    if !after.in_check(w) {
+                        match r {
+                            Ok(r) if r == after => {}
+                            Ok(r) => return Err(viol("C02", "state_mismatch", format!("after make({}) of a move from the capture/promotion generator at {}: board has {} expected {} (fields: {})", uci, self.rf.to_fen(), r.to_fen(), after.to_fen(), diff_fields(&r, &after))).with("fields", json!(diff_fields(&r, &after))).with("generator", json!("non_quiescent"))),
+                            Err(e) => return Err(viol("C02", "board_inconsistent", e)),
+                        }
+                        got.push(uci.clone());
+                    }
+                    if snap(&self.bb) != before {
+                        return Err(viol("C03", "make_unmake_not_identity", format!("make+unmake of {} (capture/promotion generator) at {} changed the board", uci, self.rf.to_fen())).with("generator", json!("non_quiescent")));
                     }
                 }
                 got.sort();
